@@ -213,7 +213,7 @@ def check(run):
         if r["leak_orig_to_copy"]:
             probs.append(("write-to-original-visible-in-copy", r["leak_orig_to_copy"]))
         if not r["equal"] and not probs:
-            probs.append(("not-equal", [r["type"]]))
+            probs.append(("not-equal", [r.get("diff_path") or r["type"]]))
         if r.get("bad"):
             broken.append("harness could not represent a value of %s: %s" % (r["type"], r["bad"][:3]))
         for kind, paths in probs:
